@@ -13,7 +13,7 @@ pub fn def() -> PropDef {
         job_level,
         run_job,
         replay,
-        rule: "configs: action lists (x), (x y), (x y z), (x y z w) x {tap-dance, tap-dance-eager} x timeout T in {3,6} x rapid-event-delay {0,5}; a = the dance key, b = plain key. Histories: EVERY physically consistent schedule of N events over press/release of a and b, each preceded by a gap from {0,1,T-1,T,T+1} (quick N=5, thorough N=6/7), then released and settled. Tap-hold member family: (tap-dance T ((tap-hold 0 H x y) z)) held for EVERY length 1..T+H+8, alone, with another key pressed at every offset before the dance timeout, and with the dance key's press queued behind 2 or 4 events of another key that arrived in the same millisecond: the inner tap-hold's decision runs from the end of the dance (x if released within H of it, y if held past it, +-2 either). Taps family: EVERY sequence of U complete taps (press, 1 tick, release) of a / b with the gap before each tap from {1, T-1, T+1} (quick U=6, thorough U=7): reaches list exhaustion and restart (len+2 taps in a row). Oracle TapDanceSpec: taps are counted while each press of the dance key follows the previous press by less than T (gap == T: either reading accepted, but the press must be accounted for); the dance ends on timeout / press of another key / list exhausted; lazy: the sequence of press outputs equals [N-th action of each dance, interrupting keys after the chosen action], each chosen action pressed once and released not before the final release of the dance key; eager: the i-th tap of a dance presses the i-th action. Accounting invariant: the tap counts implied by the outputs sum to the number of physical presses of the dance key (no press swallowed, none doubled). After settle nothing is held.",
+        rule: "configs: action lists (x), (x y), (x y z), (x y z w) (taps family also with the last entry repeating its predecessor: (x x), (x y y), (x y z z) - the list length still counts) x {tap-dance, tap-dance-eager} x timeout T in {3,6} x rapid-event-delay {0,5}; a = the dance key, b = plain key. Histories: EVERY physically consistent schedule of N events over press/release of a and b, each preceded by a gap from {0,1,T-1,T,T+1} (quick N=5, thorough N=6/7), then released and settled. Tap-hold member family: (tap-dance T ((tap-hold 0 H x y) z)) held for EVERY length 1..T+H+8, alone, with another key pressed at every offset before the dance timeout, and with the dance key's press queued behind 2 or 4 events of another key that arrived in the same millisecond: the inner tap-hold's decision runs from the end of the dance (x if released within H of it, y if held past it, +-2 either). Taps family: EVERY sequence of U complete taps (press, 1 tick, release) of a / b with the gap before each tap from {1, T-1, T+1} (quick U=6, thorough U=7): reaches list exhaustion and restart (len+2 taps in a row). Oracle TapDanceSpec: taps are counted while each press of the dance key follows the previous press by less than T (gap == T: either reading accepted, but the press must be accounted for); the dance ends on timeout / press of another key / list exhausted; lazy: the sequence of press outputs equals [N-th action of each dance, interrupting keys after the chosen action], each chosen action pressed once and released not before the final release of the dance key; eager: the i-th tap of a dance presses the i-th action. Accounting invariant: the tap counts implied by the outputs sum to the number of physical presses of the dance key (no press swallowed, none doubled). After settle nothing is held.",
         assumptions: &["key actions in the lists, plus one family with a tap-hold member (layer members are covered by C01/C02 for crash and stuck-output, not for count)", "boundary gap == T is a don't-care between 'same dance' and 'new dance'"],
         required_level,
         min_outcomes: 3,
@@ -26,6 +26,8 @@ struct Spec {
     eager: bool,
     t: u32,
     red: u32,
+    /// the last list entry repeats its predecessor (x y y): the list LENGTH still counts
+    dup: bool,
 }
 const ACT: [&str; 4] = ["x", "y", "z", "w"];
 const ACTN: [&str; 4] = ["X", "Y", "Z", "W"];
@@ -37,11 +39,19 @@ impl Spec {
             self.red,
             if self.eager { "tap-dance-eager" } else { "tap-dance" },
             self.t,
-            ACT[..self.len].join(" ")
+            (0..self.len).map(|i| ACT[self.ai(i)]).collect::<Vec<_>>().join(" ")
         )
     }
+    /// index of the action written at list position i
+    fn ai(&self, i: usize) -> usize {
+        if self.dup && self.len >= 2 && i == self.len - 1 {
+            self.len - 2
+        } else {
+            i
+        }
+    }
     fn tag(&self) -> String {
-        format!("{}/len{}/T{}/red{}", if self.eager { "eager" } else { "lazy" }, self.len, self.t, self.red)
+        format!("{}/len{}{}/T{}/red{}", if self.eager { "eager" } else { "lazy" }, self.len, if self.dup { "dup" } else { "" }, self.t, self.red)
     }
 }
 
@@ -78,14 +88,14 @@ fn jobs(tier: Tier) -> &'static Vec<Job> {
                         }
                         for red in [5u32, 0] {
                             for first in 0..10 {
-                                v.push(Job { spec: Spec { len, eager, t, red }, n, first, level: lvl, taps: false, th_member: false });
+                                v.push(Job { spec: Spec { len, eager, t, red, dup: false }, n, first, level: lvl, taps: false, th_member: false });
                             }
                         }
                     }
                 }
             }
             if lvl == 0 {
-                v.push(Job { spec: Spec { len: 2, eager: false, t: 6, red: 5 }, n: 0, first: 0, level: 0, taps: false, th_member: true });
+                v.push(Job { spec: Spec { len: 2, eager: false, t: 6, red: 5, dup: false }, n: 0, first: 0, level: 0, taps: false, th_member: true });
             }
             // taps family (level 0 only): long runs of taps reach list exhaustion + restart (len + 2 taps)
             if lvl == 0 {
@@ -95,7 +105,10 @@ fn jobs(tier: Tier) -> &'static Vec<Job> {
                         for t in [3u32, 6] {
                             for red in [5u32, 0] {
                                 for first in 0..6 {
-                                    v.push(Job { spec: Spec { len, eager, t, red }, n: units, first, level: 0, taps: true, th_member: false });
+                                    v.push(Job { spec: Spec { len, eager, t, red, dup: false }, n: units, first, level: 0, taps: true, th_member: false });
+                                    if len >= 2 && t == 6 {
+                                        v.push(Job { spec: Spec { len, eager, t, red, dup: true }, n: units, first, level: 0, taps: true, th_member: false });
+                                    }
                                 }
                             }
                         }
@@ -167,7 +180,7 @@ fn expected(spec: &Spec, ins: &[In]) -> Vec<Vec<String>> {
                 let mut s2 = s.clone();
                 if s2.active {
                     if !spec.eager {
-                        s2.out.push(ACTN[s2.count - 1].to_string());
+                        s2.out.push(ACTN[spec.ai(s2.count - 1)].to_string());
                     }
                     s2.active = false;
                     s2.count = 0;
@@ -195,7 +208,7 @@ fn expected(spec: &Spec, ins: &[In]) -> Vec<Vec<String>> {
                 let mut s2 = s.clone();
                 if !cont {
                     if s2.active && !spec.eager {
-                        s2.out.push(ACTN[s2.count - 1].to_string());
+                        s2.out.push(ACTN[spec.ai(s2.count - 1)].to_string());
                     }
                     s2.count = 0;
                 }
@@ -203,12 +216,12 @@ fn expected(spec: &Spec, ins: &[In]) -> Vec<Vec<String>> {
                 s2.count += 1;
                 s2.last = e.t;
                 if spec.eager {
-                    s2.out.push(ACTN[s2.count - 1].to_string());
+                    s2.out.push(ACTN[spec.ai(s2.count - 1)].to_string());
                 }
                 if s2.count == spec.len {
                     // list exhausted: the dance ends now
                     if !spec.eager {
-                        s2.out.push(ACTN[s2.count - 1].to_string());
+                        s2.out.push(ACTN[spec.ai(s2.count - 1)].to_string());
                     }
                     s2.active = false;
                     s2.count = 0;
@@ -222,7 +235,7 @@ fn expected(spec: &Spec, ins: &[In]) -> Vec<Vec<String>> {
         .into_iter()
         .map(|mut s| {
             if s.active && !spec.eager {
-                s.out.push(ACTN[s.count - 1].to_string());
+                s.out.push(ACTN[spec.ai(s.count - 1)].to_string());
             }
             s.out
         })
